@@ -73,12 +73,17 @@ func (ch *ConnectionHandler) acceptStream() {
 		var stream net.Conn
 
 		stream, err := ch.session.AcceptStream()
-		if err == os.ErrClosed || err == io.EOF {
+		if err == os.ErrClosed || err == io.EOF || err == io.ErrClosedPipe {
 			log.Debugf("Stream closed, existing loop.")
 			return
 		} else if err != nil {
-			log.WithError(err).Errorf("Error accepting stream: %v", err)
-			continue
+			// Every error of AcceptStream (read error, protocol error, keep-alive timeout) is final for
+			// the session and is returned again immediately on the next call: retrying would spin.
+			log.WithError(err).Errorf("Error accepting stream, session ended: %v", err)
+			if !ch.session.IsClosed() {
+				streams.TryClose(ch.session)
+			}
+			return
 		}
 		stream = streams.NewNamedConnection(stream, stream.RemoteAddr().String())
 		log.Debugf("[Server] New logical connection accepted: %v", stream)
